@@ -175,3 +175,18 @@ func ZZC15Lang() {
 	nd.Assert(mutableRegex.MatchString(text) == zzRefMutable.MatchString(text), "language(mutable) == reference, all lengths")
 	nd.Assert(packageOnlyRegex.MatchString(text) == zzRefPackageOnly.MatchString(text), "language(packageonly) == reference, all lengths")
 }
+
+var zzPrefix = func(kw string) *regexp.Regexp {
+	return regexp.MustCompile(`^[\t\n\f\r ]*//[\t\n\f\r ]*@` + kw + `([\t\n\f\r ](?s:.*))?$`)
+}
+
+// ZZC09Prefix: native confirmation of a witness of the unbounded inclusion queries (C09a).
+func ZZC09Prefix() {
+	text := nd.Buf("text")
+	nd.Assert(!implementsRegex.MatchString(text) || zzPrefix("implements").MatchString(text), "accepted text has the anchored lowercase @implements prefix form")
+	nd.Assert(!constructorRegex.MatchString(text) || zzPrefix("constructor").MatchString(text), "accepted text has the anchored lowercase @constructor prefix form")
+	nd.Assert(!immutableRegex.MatchString(text) || zzPrefix("immutable").MatchString(text), "accepted text has the anchored lowercase @immutable prefix form")
+	nd.Assert(!testonlyRegex.MatchString(text) || zzPrefix("testonly").MatchString(text), "accepted text has the anchored lowercase @testonly prefix form")
+	nd.Assert(!mutableRegex.MatchString(text) || zzPrefix("mutable").MatchString(text), "accepted text has the anchored lowercase @mutable prefix form")
+	nd.Assert(!packageOnlyRegex.MatchString(text) || zzPrefix("packageonly").MatchString(text), "accepted text has the anchored lowercase @packageonly prefix form")
+}
